@@ -88,30 +88,37 @@ Theorem C25_sequence : forall flag cs outs sh,
   run_all flag sh cs = map (fun oc => (inl (py_strip (fst oc), snd oc), 1)) outs.
 Proof. exact run_all_wf. Qed.
 
-(* ---- after a timeout (the shell is closed, after the fix): whatever the timed-out command still prints
-        ([late]), the commands that follow are unaffected.  The timed-out command itself was started
-        TWICE (shell, then fall-back): see C25_exactly_once_after_timeout_refuted. *)
-Theorem C25_after_timeout_partial : forall sh c1 cs outs late,
+(* ---- after a timeout.  The code leaves the shell open ([close_on_timeout] = false in the model): the
+        timed-out command is started a second time by the fall-back, and the command that follows returns the
+        late output and the old end marker of the timed-out one in front of its own output.  Both are recorded as
+        known findings (known/C25.txt); closing the shell inside the timeout handler is not a repair, because
+        asyncio's Process.wait() then blocks until the timed-out command releases the pipe. *)
+Definition c_to : cmd :=
+  {| c_marker := "M1"; c_resp := [TimeoutEv; Chunk ("late" ++ response "M1" "" 0)]; c_fresh := inr ETimeout |}.
+Definition c_three : cmd :=
+  {| c_marker := "M2"; c_resp := [Chunk (response "M2" "three" 0)]; c_fresh := inr EHang |}.
+Theorem C25_after_timeout_refuted :
+  run_all false new_shell [c_to; c_three] =
+    [(inr ETimeout, 2); (inl ("lateM1:0" ++ String nl "" ++ "three", 0%N), 1)] /\
+  wf_cmd c_three "three" 0.
+Proof.
+  split; [vm_compute; reflexivity|].
+  constructor; [reflexivity|reflexivity|].
+  exists [response "M2" "three" 0]. repeat split; try discriminate.
+  intros x [<-|[]]. discriminate.
+Qed.
+Theorem C25_exactly_once_after_timeout_refuted :
+  exists c, snd (run false new_shell (c_marker c) (c_resp c) (c_fresh c)) = 2.
+Proof. exists c_to. vm_compute. reflexivity. Qed.
+
+(* what WOULD hold if a timeout discarded the shell (model parameter [close_on_timeout] = true; not the
+   code): whatever the timed-out command still prints ([late]), the commands that follow are unaffected *)
+Theorem C25_after_timeout_if_shell_discarded_partial : forall sh c1 cs outs late,
   closed sh = false ->
   read_with_output (c_marker c1) "" (pending sh ++ c_resp c1)%list = (inr ETimeout, late) ->
   Forall2 (fun c oc => wf_cmd c (fst oc) (snd oc)) cs outs ->
   run_all true sh (c1 :: cs) = (c_fresh c1, 2) :: map (fun oc => (inl (py_strip (fst oc), snd oc), 1)) outs.
 Proof. exact timeout_then_wf. Qed.
-
-(* before the fix ([close_on_timeout] = false) the next command returns the late output and the old
-   marker of the timed-out one in front of its own output *)
-Definition c_to : cmd :=
-  {| c_marker := "M1"; c_resp := [TimeoutEv; Chunk ("late" ++ response "M1" "" 0)]; c_fresh := inr ETimeout |}.
-Definition c_three : cmd :=
-  {| c_marker := "M2"; c_resp := [Chunk (response "M2" "three" 0)]; c_fresh := inr EHang |}.
-Theorem C25_after_timeout_unfixed_refuted :
-  run_all false new_shell [c_to; c_three] =
-    [(inr ETimeout, 2); (inl ("lateM1:0" ++ String nl "" ++ "three", 0%N), 1)] /\
-  run_all true new_shell [c_to; c_three] = [(inr ETimeout, 2); (inl ("three", 0%N), 1)].
-Proof. split; vm_compute; reflexivity. Qed.
-Theorem C25_exactly_once_after_timeout_refuted :
-  exists c, snd (run true new_shell (c_marker c) (c_resp c) (c_fresh c)) = 2.
-Proof. exists c_to. vm_compute. reflexivity. Qed.
 
 (* ---- non-vacuity *)
 Example C25_create_example :
@@ -144,6 +151,6 @@ Print Assumptions C25_template_env_refuted.
 Print Assumptions C25_raw_workdir_refuted.
 Print Assumptions C25_framing.
 Print Assumptions C25_sequence.
-Print Assumptions C25_after_timeout_partial.
-Print Assumptions C25_after_timeout_unfixed_refuted.
+Print Assumptions C25_after_timeout_refuted.
 Print Assumptions C25_exactly_once_after_timeout_refuted.
+Print Assumptions C25_after_timeout_if_shell_discarded_partial.
